@@ -544,7 +544,7 @@ def run(chk, replay=None):
     chk.prove(drivers=['drv_domdoc'])
     drv = chk.driver('drv_domdoc')
     thorough = chk.tier == 'thorough'
-    nhist = 3000 if thorough else 500
+    nhist = 2000 if thorough else 500
     for s in range(nhist):
         h = History(chk.rng)
         h.prologue()
@@ -564,7 +564,7 @@ def run(chk, replay=None):
         if h.orc.dupnames: chk.count('history_with_duplicate_style_names')
         if h.orc.failed:
             report(chk, h)
-    ns, na = exhaustive(chk, drv, 4 if thorough else 1, 3000 if thorough else 200)
+    ns, na = exhaustive(chk, drv, 4 if thorough else 1, 1200 if thorough else 200)
     chk.notes.append('exhaustive part: %d distinct states (full state incl. dictionaries), %d (state, edit) pairs, histories <= %d'
                      % (ns, na, (4 if thorough else 1) + 1))
     return chk.finish()
